@@ -108,6 +108,10 @@ class Builder:
         if d(st.integers(0, 5)) == 0:
             self.labels.add('void-cell')
             return 0, None
+        # opts['unsupported_mix']: the mass-fraction material may also be used
+        # with an atom density (documented as unsupported: the converter
+        # warns and writes an empty composition) - structural checks only
+        mix = bool(self.opts.get('unsupported_mix'))
         if not hasattr(self, 'palette'):
             # a small palette makes cells share materials and density
             # families, in different spellings
@@ -115,16 +119,20 @@ class Builder:
             for _ in range(d(st.integers(2, 3))):
                 m = d(st.integers(1, self.n_mat))
                 fi = d(st.integers(0, len(DENSITY_FAMILIES) - 1))
-                neg = True if m == 3 else d(st.sampled_from([True, True,
-                                                             False]))
+                neg = True if (m == 3 and not mix) else \
+                    d(st.sampled_from([True, True, False]))
                 self.palette.append((m, fi, neg))
         if d(st.integers(0, 4)) == 0:
             m = d(st.integers(1, self.n_mat))
             # material 3 is given in mass fractions: only mass densities
-            sp, _val, _fi = d(density(mass_only=(m == 3)))
+            sp, _val, _fi = d(density(mass_only=(m == 3 and not mix)))
+            if m == 3 and not sp.startswith('-'):
+                self.labels.add('mass-fractions+atom-density')
             return m, sp
         m, fi, neg = d(st.sampled_from(self.palette))
         sp = d(st.sampled_from(DENSITY_FAMILIES[fi][1]))
+        if m == 3 and not neg:
+            self.labels.add('mass-fractions+atom-density')
         return m, ('-' + sp) if neg else sp
 
     # -- simple regions ------------------------------------------------------
